@@ -1,4 +1,5 @@
 import Upd.StatusProofs
+import Upd.ReadOKHist
 /-!
 # C15 (continued) — the closed table of status codes, unreachable 500 branches, error codes only on errors
 
@@ -79,10 +80,7 @@ theorem server_error_iff (s : State) (rp : Repo) (arg : String) (accept : List S
   pickOf_serverError_iff s rp arg accept desc
 
 /-- partial: no 500 from a manifest GET on a repository in which every listed digest parses and every tagged index
-    whose blob is present parses as an index with parsable child digests (`Upd.ReadOK`).  Not proved here: that
-    `ReadOK` holds in every reachable state — entries are written with the digest string of a validated push and
-    children are checked with `hasBlob`, but the step from "the digest was parsed from the request" to "its printed
-    form parses back" needs `String.splitOn` facts core does not provide. -/
+    whose blob is present parses as an index with parsable child digests (`Upd.ReadOK`). -/
 theorem manifest_get_no_5xx_partial (s : State) (r arg : String) (accept : List String) (head : Bool) (rng : String)
     (hok : ReadOK s (s.repo r)) : (mGet s r arg accept head rng).2.status ≠ 500 :=
   mGet_no_5xx_of_readOK s r arg accept head rng hok
@@ -91,4 +89,25 @@ theorem manifest_get_no_5xx_partial (s : State) (r arg : String) (accept : List 
 example : ReadOK {} (({} : State).repo "r") where
   digs := fun e he => by cases he
   opens := fun e he => by cases he
+
+/-- partial: in every state reached by any history of requests and body definitions, under any configuration, no
+    manifest GET answers 500 — provided every pushed manifest body name `b` satisfies `RT ⟨alg, b⟩` (its digest string
+    parses back to the digest: `Upd.Rb.AdmEv`) and so do the names of referrers responses (`hresp`).  These two are
+    facts about `String.splitOn ":"` / `":".intercalate` on the symbolic content names of the model (`@…`, `R(…)`);
+    core has no lemmas about `String.splitOn` and the kernel cannot evaluate it, so they stay hypotheses.
+    What is proved: the invariant `Upd.Rb.RI` (every listed digest parses; every tagged index entry names a defined
+    body that opens as an index with parsable children; every registered referrers descriptor parses) is established
+    by every push (`validateIndex` checked exactly this) and kept by `AddDesc`/`RmDesc`, the referrers bookkeeping and
+    every other handler. -/
+theorem manifest_get_no_5xx_reachable_partial (conf : Conf) (hist : List Ev)
+    (hadm : ∀ e ∈ hist, Upd.Rb.AdmEv e) (hresp : ∀ ds, Upd.Rb.RT ⟨.sha256, respName ds⟩)
+    (r arg : String) (accept : List String) (head : Bool) (rng : String) :
+    (mGet (hist.foldl stepEv { conf := conf }) r arg accept head rng).2.status ≠ 500 :=
+  Upd.Rb.mGet_no_5xx_reachable conf hist hadm hresp r arg accept head rng
+
+-- histories without manifest pushes are admissible whatever else they contain
+example : ∀ e ∈ [Ev.req (.tags "r" "" ""), Ev.defBody "@i" {}, Ev.req (.bDel "r" "sha256:x")], Upd.Rb.AdmEv e := by
+  intro e he
+  simp only [List.mem_cons, List.mem_nil_iff, or_false] at he
+  rcases he with rfl | rfl | rfl <;> exact True.intro
 end C15b
